@@ -286,38 +286,38 @@ package testdirectory
 //@ pure muQuiet(d *Directory) bool = forallref(W, *bufio.Writer, G_guard[W] == &d.mu ==> (G_npend[W] == 0 && G_pendstr[W] == "") || G_werr[W])
 // the search handlers: lock obligations only (their functional behaviour is not under contract)
 //@ func (*testdirectory.Directory).handleSearchUsers$1
-//@   requires hOK(w, r) && dirOK(d) && !held(&d.mu)
+//@   requires hOK(w, r) && dirOK(d) && !held(&d.mu) && w.writerMu != &d.mu
 //@   panics any
 //@   tags C15
 //@ loop 1
-//@   invariant held(&d.mu) && muQuiet(d)
+//@   invariant held(&d.mu) && !held(w.writerMu) && muQuiet(d)
 //@ loop 2
-//@   invariant held(&d.mu) && muQuiet(d)
+//@   invariant held(&d.mu) && !held(w.writerMu) && muQuiet(d)
 //@ func (*testdirectory.Directory).handleSearchGroups$1
-//@   requires hOK(w, r) && dirOK(d) && !held(&d.mu)
+//@   requires hOK(w, r) && dirOK(d) && !held(&d.mu) && w.writerMu != &d.mu
 //@   panics any
 //@   tags C15
 //@ loop 1
-//@   invariant held(&d.mu) && muQuiet(d)
+//@   invariant held(&d.mu) && !held(w.writerMu) && muQuiet(d)
 //@ loop 2
-//@   invariant held(&d.mu) && muQuiet(d)
+//@   invariant held(&d.mu) && !held(w.writerMu) && muQuiet(d)
 //@ loop 3
-//@   invariant held(&d.mu) && muQuiet(d)
+//@   invariant held(&d.mu) && !held(w.writerMu) && muQuiet(d)
 //@ func (*testdirectory.Directory).handleSearchGeneric$1
-//@   requires hOK(w, r) && dirOK(d) && !held(&d.mu)
+//@   requires hOK(w, r) && dirOK(d) && !held(&d.mu) && w.writerMu != &d.mu
 //@   panics any
 //@   tags C15
 //@ loop 1
-//@   invariant held(&d.mu) && muQuiet(d)
+//@   invariant held(&d.mu) && !held(w.writerMu) && muQuiet(d)
 //@ loop 2
-//@   invariant held(&d.mu) && muQuiet(d)
+//@   invariant held(&d.mu) && !held(w.writerMu) && muQuiet(d)
 //@ loop 3
-//@   invariant held(&d.mu) && muQuiet(d)
+//@   invariant held(&d.mu) && !held(w.writerMu) && muQuiet(d)
 //@ loop 4
-//@   invariant held(&d.mu) && muQuiet(d)
+//@   invariant held(&d.mu) && !held(w.writerMu) && muQuiet(d)
 //@ loop 5
-//@   invariant held(&d.mu) && muQuiet(d)
+//@   invariant held(&d.mu) && !held(w.writerMu) && muQuiet(d)
 //@ loop 6
-//@   invariant held(&d.mu) && muQuiet(d)
+//@   invariant held(&d.mu) && !held(w.writerMu) && muQuiet(d)
 //@ loop 7
-//@   invariant held(&d.mu) && muQuiet(d)
+//@   invariant held(&d.mu) && !held(w.writerMu) && muQuiet(d)
